@@ -124,6 +124,13 @@ func init() {
 		}{"deepreentry", w})
 	}
 
+	// fullcount: see genFullCount
+	kinds["fullcount"] = &kindFn{gen: genFullCount, run: runCore}
+	propKinds["C01"] = append(propKinds["C01"], struct {
+		Kind   string
+		Weight int
+	}{"fullcount", 1})
+
 	// msheavy: millisecond timeouts and expiries
 	msk := base
 	msk.profile, msk.pMs, msk.maxDelayMs = "milliseconds", 500, 300
